@@ -2467,6 +2467,66 @@ pub fn check_c16(ix: &Ix<'_>, v: &mut Vec<Violation>) {
     }
     let conn = 0usize;
     let ended = ix.conn_ended(conn);
+    // A packet that certainly violates the protocol ends the connection by itself: it does not wait for
+    // unrelated publish handlers that are still busy. Judged at the quiescence of the scripted part
+    // (handlers may be held until the closing phase), for violations that need no model of the endpoint's
+    // state: an acknowledgement while the endpoint never sent anything that could be acknowledged, a
+    // MQTT 3.1.1 PUBLISH whose identifier belongs to a publish whose handler is still running, a MQTT 5
+    // PUBLISH with a topic alias that was never bound. Not judged while a protocol (control) handler is
+    // busy: control packets are processed one at a time.
+    if let Some(settle) = ix.settle_seq
+        && ix.fault("fin") + ix.fault("rst") + ix.fault("wr_err") == 0
+    {
+        let ended_before_settle = ix.stops.iter().any(|s| s.1 == conn && s.0 < settle)
+            || ix.conn_done.iter().any(|c| c.1 == conn && c.0 < settle)
+            || ix.ep_closed.iter().any(|c| c.1 == conn && c.0 < settle);
+        let accepted_at = ix.gates.iter().find(|g| g.conn == conn && g.kind == GateKind::Handshake).and_then(|g| match &g.exit {
+            Some((xs, Outcome::Ok)) => Some(*xs),
+            _ => None,
+        });
+        let session_at = ix.sessions.iter().find(|s| s.1 == conn).map(|s| s.0);
+        let proto_busy = ix.gates.iter().any(|g| g.conn == conn && g.kind == GateKind::Proto && g.enter < settle && g.exit.as_ref().is_none_or(|x| x.0 > settle) && g.dropped.is_none_or(|d| d > settle));
+        let never_sends = out.plan.senders.is_empty();
+        if !ended_before_settle && !proto_busy && session_at.is_some() {
+            for s in ix.sent.iter().filter(|s| s.conn == conn && !s.corrupt && s.delivered.is_some_and(|d| d < settle)) {
+                let _ = accepted_at;
+                let d = s.delivered.unwrap_or(0);
+                let what = match &s.pkt {
+                    // (a second CONNECT is silently ignored by the server dispatchers, like SUBACK: see the
+                    // C06 known finding; the listed properties do not make it a violation of C16)
+                    Some(Pkt::PubAck(_) | Pkt::PubRec(_) | Pkt::PubComp(_)) if never_sends && session_at.is_some_and(|a| a < s.seq) => Some("ack-for-nothing"),
+                    // MQTT 3.1.1: an identifier whose publish handler is still running is certainly in use (C11)
+                    Some(Pkt::Publish(p)) if ix.ver == Ver::V3 && p.qos > 0 && p.pid.is_some() => ix
+                        .sent
+                        .iter()
+                        .filter(|e| e.conn == conn && e.seq < s.seq && !e.corrupt)
+                        .filter_map(|e| match &e.pkt {
+                            Some(Pkt::Publish(q)) if q.qos > 0 && q.pid == p.pid => Some(q),
+                            _ => None,
+                        })
+                        .any(|q| ix.pub_gates(conn).any(|(g, seen)| seen.topic == q.topic && g.enter < d && g.exit.as_ref().is_none_or(|x| x.0 > settle) && g.dropped.is_none_or(|x| x > settle)))
+                        .then_some("id-in-use"),
+                    // MQTT 5: a topic alias that was never bound on this connection (C17)
+                    Some(Pkt::Publish(p)) if ix.ver == Ver::V5 && p.topic.is_empty() => {
+                        let alias = crate::refcodec::prop_u16(&p.props, 35);
+                        let bound = ix.sent.iter().filter(|e| e.conn == conn && e.seq < s.seq).any(|e| matches!(&e.pkt, Some(Pkt::Publish(q)) if !q.topic.is_empty() && crate::refcodec::prop_u16(&q.props, 35) == alias));
+                        (alias.is_some() && !bound).then_some("unknown-alias")
+                    }
+                    _ => None,
+                };
+                if let Some(what) = what {
+                    viol(
+                        v,
+                        "C16",
+                        format!("C16/violation-did-not-end-connection/{role}/{what}"),
+                        format!("{} was delivered at step {:?}; it can only be a protocol violation, yet the connection was still up (and no Stop reported) when the scripted part had gone quiet with publish handlers busy", s.pkt.as_ref().map_or(String::new(), |p| p.brief()), s.delivered),
+                        settle,
+                    );
+                    break;
+                }
+            }
+        }
+    }
     // the probe is the last scripted step
     let probe = ix.sent.iter().rev().find(|s| match &s.pkt {
         Some(Pkt::PingReq) => out.plan.role.is_server(),
